@@ -286,9 +286,15 @@ def check(ctx, world):
         "with the folded group order), D4 identity rejection (Ed25519), and return exactly the decoded value. "
         "D5: in finish() of the three classes the peer bytes flow into the key only through group.bytes_to_element "
         "and raw into the transcript. Formula functions and the identity predicate are recognised semantically "
-        "(polynomial classification), not by name.")
+        "(polynomial classification), not by name. D-reencode: the encoder/decoder agreement obligations of C15 "
+        "(K3, K5) - an accepted string is the encoding of the element it decodes to.")
     ctx.min_obligations = 20
     ev = session.new_ev(world)
     integer_group(ctx, world, ev)
     ed25519(ctx, world, ev)
     finish_use(ctx, world, ev)
+    # "every accepted string re-encodes to itself": the decoder is the inverse of the element encoder
+    # (C15's K3/K5 encoder-decoder agreement: big-endian value / y with the parity of x in bit 255,
+    # the recovered root and the sign rule), re-run here
+    from .common import include
+    include(ctx, world, "c15", "D-reencode", keep=lambda o: o.rule in ("K3-encoder", "K3-decoder", "K5-encoder", "K5-decoder", "K5-root"))
